@@ -29,17 +29,25 @@ def run_mc(work, tag, text, workers, timeout=3000):
 def scenarios(prop, quick, seed):
     n = 200 if quick else 3000
     kinds = [["set"], ["invalidate"], ["compute"], ["evict"], ["set", "invalidate"], ["setifabsent"], ["invalidateAll"], [],
-             ["compute", "set"], ["invalidate", "invalidate"]]
+             ["compute", "set"], ["invalidate", "invalidate"], ["setifabsent", "setifabsent"]]
     out = []
     for j in range(n):
-        refreshers = (j // 2) % 2
+        refreshers = [0, 1, 0, 2][(j // 2) % 4]
         refresh = 1 if (refreshers or j % 3 == 0) else 0
         outs = [["val"], ["val", "err", "nf"], ["val", "nf", "err", "val"]][j % 3]
         if not refreshers and not refresh and j % 5 == 0:
             outs = outs + ["panic"]
-        out.append({"getters": 1 + j % 3, "bulk": (j // 3) % 2, "refreshers": refreshers, "writers": kinds[j % len(kinds)],
-                    "preload": (j // 4) % 2 if refresh else 0, "outcomes": outs, "policy": "random" if j % 2 else "pct",
-                    "seed": seed * 100000 + j, "script": [], "refresh": refresh})
+        sc = {"getters": 1 + j % 3, "bulk": (j // 3) % 2, "refreshers": refreshers, "writers": kinds[j % len(kinds)],
+              "preload": (j // 4) % 2 if refresh else 0, "outcomes": outs, "policy": "random" if j % 2 else "pct",
+              "seed": seed * 100000 + j, "script": [], "refresh": refresh}
+        fam = j % 8
+        if fam in (1, 5):      # waiters joined to a failing / not-found / panicking bulk or single load
+            sc.update(getters=2 + j % 2, bulk=1 if fam == 1 else 0, refreshers=0, refresh=0, preload=0, writers=[],
+                      outcomes=[["err"], ["nf"], ["panic"], ["val", "err"]][(j // 8) % 4])
+        elif fam == 3:         # two refreshes of a present entry with a writer that may be a no-op
+            sc.update(getters=j % 2, bulk=0, refreshers=2, refresh=1, preload=1, outcomes=[["val"], ["val", "err"], ["nf", "val"]][(j // 8) % 3],
+                      writers=[["setifabsent"], ["set"], [], ["invalidate"], ["compute"]][(j // 8) % 5])
+        out.append(sc)
     return out
 
 
